@@ -848,4 +848,4 @@ def _lazy_caches (ctx, repo, lof):
           ctx.ob('R-EFFECT', f, "a store to `self.%s` resets the packed copy `self.%s`" % (S, C), good, "`self.%s = None` on every path" % C if good else
                  "`%s` replaces the field that %s packs lazily into self.%s, without `self.%s = None`: if the object has been packed (or measured) before, its length and bytes are still those of the previous value - "
                  "the header length no longer equals the byte count of what the object now holds" % (s_.text(50), filler.qual, C, C), (lof, s_.ast), 'D5')
-  ctx.floor('stores to lazily packed fields', n, 2)
+  ctx.floor('stores to lazily packed fields', n, 1)
